@@ -23,7 +23,9 @@ ACCESS_PREFIXES = ("Store", "UnOp:load", "UnOp:recv", "Send", "MapUpdate", "Look
                    "Call:builtin:len:map", "Call:builtin:len:chan", "Call:builtin:cap:chan", "Call:builtin:close",
                    "Convert:slice->string", "Convert:string->slice")
 # kinds whose verdict does not depend on the graph (always Local in instructionLocality): the mechanism is irrelevant
-UNGUARDED_PREFIXES = ("Call:", "Convert:", "Slice", "Index", "Field", "MakeInterface", "ChangeType", "ChangeInterface")
+# (builtin calls and slice->string conversions are guarded since fix 913f0a4; a regression there shows up as
+# race-local:<entry>:ACC:mech=goarg:kind=Call:builtin:... which is not a listed finding)
+UNGUARDED_PREFIXES = ("Slice", "Index:", "Field", "MakeInterface", "ChangeType", "ChangeInterface")
 
 CORPUS = ["analysis/escape/testdata/escape-locality", "analysis/escape/testdata/simple-escape",
           "analysis/escape/testdata/interprocedural-escape", "analysis/escape/testdata/builtins-escape",
@@ -165,8 +167,8 @@ def run(chk):
         failed = chk.prove("theories/Properties/C14.v")
         okf, _ = vlib.build_coq(["theories/Properties/C14Findings.vo"])
         if not okf["theories/Properties/C14Findings.vo"]:
-            chk.notes.append("stale_known_finding: Properties/C14Findings.v (refutation lemmas over the regenerated tables: builtin calls / "
-                             "Convert always Local, checkEscape skips calls, Defer unhandled) no longer compiles - a listed defect was repaired")
+            chk.notes.append("stale_known_finding: Properties/C14Findings.v (refutation lemma over the regenerated tables: Defer unhandled by "
+                             "transferFunction) no longer compiles - a listed defect was repaired")
     if not os.path.exists(os.path.join(vlib.COQ, "theories/Properties/C14.v")):
         vlib.build_harness(["c14dump"])
     work = os.path.join(vlib.BUILD, "c14")
